@@ -270,6 +270,7 @@ def gen_world(rng, f):
         if not first_cls:
             opts.pop("rec", None)
             opts.pop("rec_next", None)
+            opts.pop("fcall", None)
         if ar != 1 or any(p[1] == "kw" for p in params) or not first_cls:
             opts.pop("next_other", None)
         body = [weighted(rng, list(opts.items()))]
